@@ -26,7 +26,8 @@ RULE = (
     "in `schema` / `extend schema` incl. default-looking names; object without fields; union containing itself; duplicate enum value in "
     "base or via extension; duplicate type / directive definition; scalar without implementation; invalid extend: unknown target, wrong "
     "kind, member already in base, member repeated across two extensions; directive with a non-coroutine hook; syntactically invalid "
-    "text) is applied at every applicable site (deterministic stride cap of 120 per carrier). Oracle = create_engine raises AND an Engine "
+    "text) is applied at every applicable site (deterministic stride cap of 120 per carrier); before the attempts two decoy schemas are "
+    "built in the same process in which the carrier's and the rewrites' names have the other kind (composites as inputs, inputs as objects). Oracle = create_engine raises AND an Engine "
     "whose cook() failed cannot answer a request. Distinct = SHA-1 of the mutated SDL; non-trivial = the site is inside an extension or "
     "behind a list/non-null wrapper."
 )
